@@ -30,3 +30,10 @@ for m in re.finditer(r'let block: Block = hex_deserialize!\(\s*"\\?\n?((?:[0-9a-
         out["blocks"].append({"hex": hexs, "hash": h.group(1)})
 json.dump(out, open('/verif/vectors/ids.json', 'w'), indent=0)
 print(len(out["txs"]), "tx vectors;", len(out["blocks"]), "block vectors")
+
+# address strings pinned in src/address.rs::test_fixed_addresses -> /verif/vectors/addresses.json
+asrc = open('/repo/src/address.rs').read()
+m = re.search(r'fn test_fixed_addresses\(\).*?let mut expected = IntoIterator::into_iter\(\[(.*?)\]\);', asrc, re.S)
+addrs = re.findall(r'"([0-9A-Za-z]+)"', m.group(1))
+json.dump({"fixed": addrs, "source": "src/address.rs test_fixed_addresses (pinned strings)"}, open('/verif/vectors/addresses.json', 'w'), indent=0)
+print(len(addrs), "address vectors")
